@@ -29,6 +29,7 @@ PROPS = {
     "C11": dict(mc_q=["MC_guards_q", "MC_serial"], mc_t=["MC_guards", "MC_serial"], wit=[("MC_serial", "W_Replayed")]),
     "C12": dict(mc_q=["MC_serial"], mc_t=["MC_serial"], wit=[("MC_serial", "W_LoadDeactivates")]),
     "C14": dict(mc_q=["MC_guards_q"], mc_t=["MC_guards"], wit=[]),
+    "C19": dict(mc_q=["MC_guards_q"], mc_t=["MC_guards"], wit=[], pool=False),
     "C15": dict(mc_q=["MC_inj"], mc_t=["MC_inj"], wit=[("MC_inj", "W_InjectedExit")]),
     "C16": dict(mc_q=["MC_log", "MC_logv"], mc_t=["MC_log", "MC_logv"], wit=[("MC_log", "W_LoggedCancel")]),
     "C17": dict(mc_q=["MC_guards_q"], mc_t=["MC_guards"], wit=[]),
@@ -264,10 +265,11 @@ COMMON_ASSUME = [
 ASSUME = {}
 LEVEL = {}
 import components  # noqa: E402
-EXTRA = {"C10": components.extra_c10, "C13": components.extra_c13, "C20": components.extra_c20}
+import matrix  # noqa: E402
+EXTRA = {"C10": components.extra_c10, "C13": components.extra_c13, "C20": components.extra_c20, "C14": matrix.extra_c14, "C19": matrix.extra_c19}
 
 # properties whose property-specific machinery is not finished yet (not claimed in MANIFEST.json)
-NOT_YET = {"C14"}
+NOT_YET = set()
 NA_REASON = {
     "C18": "absence of undefined behaviour and of heap allocation is a property of the C++ abstract machine (bounds, alignment, indeterminate reads), not of any state a TLA+ specification can describe; deciding it needs sanitizers / static analysis, i.e. a different technique (DESIGN.md section 8)",
 }
